@@ -180,7 +180,8 @@ func c05Operands() []c05Operand {
 		{"timestamp", "s:2015-08-02T12:34:56", ".timestamp()"}, {"timestamptz", "s:2015-08-02T12:34:56+00:00", ".timestamp_tz()"},
 	}
 	hostile := []string{"1e400", "-1e400", "1e-400", "9223372036854775808", "-9223372036854775809", "1E2", "-0", "0.0", "0e0",
-		"1234567890123456789012345678901234567890", "0." + strings.Repeat("1234567890", 40), "1e308", "2147483648", "-2147483649", "1.7976931348623157e308", "4.9e-324"}
+		"1234567890123456789012345678901234567890", "0." + strings.Repeat("1234567890", 40), "1e308", "2147483648", "-2147483649", "1.7976931348623157e308", "4.9e-324",
+		"1e1000001", "-1e1000001", "1e-1000001", "2e400", "1e999999999999", "-9223372036854775808", "9007199254740993", "0e999999999999", "1" + strings.Repeat("0", 1000)}
 	for _, h := range hostile {
 		ops = append(ops, c05Operand{"hostile(" + h[:min(len(h), 12)] + ")", "n:" + h, ""})
 	}
@@ -217,6 +218,24 @@ func c05UnaryPaths(a c05Operand) []string {
 	return out
 }
 
+// c05RegexPaths: like_regex over every pattern of <= 3 symbols from an alphabet of metacharacters,
+// quoting sequences and letters x flag sets (the q flag makes the pattern literal), executed, not only parsed.
+func c05RegexPaths() []string {
+	alpha := []string{"a", ".", "*", "(", ")", "[", "]", "{", "}", "|", "^", "$", "+", "?", `\\`, `\\E`, `\\Q`, `\\d`, `\\b`, "é"}
+	pats := allStrings("regex", alpha, 3)
+	var out []string
+	for i := 0; i < pats.count; i++ {
+		for _, f := range []string{"", "q", "iq", "i", "sq", "x"} {
+			t := `$a like_regex "` + pats.at(i) + `"`
+			if f != "" {
+				t += ` flag "` + f + `"`
+			}
+			out = append(out, t)
+		}
+	}
+	return out
+}
+
 func c05Matrix(c Case) *Failure {
 	vars := exec.Vars{}
 	for k, v := range c.Vars {
@@ -247,7 +266,7 @@ func c05Matrix(c Case) *Failure {
 func isDTOperand(o c05Operand) bool { return o.suffix != "" }
 
 func runC05(r *Run) {
-	r.Rule("(1) the C06 program/document space, all five entry points, verbose and silent; (2) a type-pair matrix: every comparison, arithmetic and string operator, connective, filter, subscript and exists over every ordered pair of operand kinds {null, bool, int64, float64, json.Number, string, numeric string, array, empty array, object, date, time, timetz, timestamp, timestamptz} plus 16 hostile json.Number spellings (beyond float64 range, beyond int64, exponent forms, -0, 40-digit integers, 400-digit fractions) and 40 hostile strings (empty, signs, radix prefixes, exponent stubs, inf/nan spellings, boolean spellings, partial datetimes), and every method / unary operator / accessor over every kind, both modes, verbose and silent, with and without WithTZ; invariants on every execution: no panic; error nil, or wraps ErrExecution, or NULL from Exists/Match/ExistsOrMatch only; never ErrInvalid; document and variables equal an independent fresh decode afterwards; every returned number finite; every returned container pointer-identical to a sub-value of the input or a keyvalue triple; non-trivial = every case (each a distinct program/input)")
+	r.Rule("(1) the C06 program/document space, all five entry points, verbose and silent; (2) a type-pair matrix: every comparison, arithmetic and string operator, connective, filter, subscript and exists over every ordered pair of operand kinds {null, bool, int64, float64, json.Number, string, numeric string, array, empty array, object, date, time, timetz, timestamp, timestamptz} plus 25 hostile json.Number spellings (beyond float64 range on both sides, exponents beyond 10^6 and 10^11, beyond int64, exponent forms, -0, 40- and 1000-digit integers, 400-digit fractions) and 40 hostile strings (empty, signs, radix prefixes, exponent stubs, inf/nan spellings, boolean spellings, partial datetimes), and every method / unary operator / accessor over every kind, every like_regex pattern of <= 3 symbols over 20 metacharacters / quoting sequences x 6 flag sets executed on 5 subjects, both modes, verbose and silent, with and without WithTZ; invariants on every execution: no panic; error nil, or wraps ErrExecution, or NULL from Exists/Match/ExistsOrMatch only; never ErrInvalid; document and variables equal an independent fresh decode afterwards; every returned number finite; every returned container pointer-identical to a sub-value of the input or a keyvalue triple; non-trivial = every case (each a distinct program/input)")
 	paths := epPaths(r)
 	docs := epDocs()
 	r.Bound("paths", len(paths))
@@ -284,6 +303,22 @@ func runC05(r *Run) {
 		covered[a.name+","+b.name] = true
 		r.mu.Unlock()
 		r.Distinct(a.name + "," + b.name)
+	})
+	// like_regex patterns that parse are also executed (compilation happens at execution time)
+	rps := c05RegexPaths()
+	r.Bound("regex_paths", len(rps))
+	r.ParFor(len(rps), func(i int) {
+		if _, err, pan := parseCached(rps[i]); err != nil && pan == "" {
+			return // rejected by the parser: nothing to execute
+		}
+		for _, subj := range []string{"s:a", "s:a.E(", `s:\\E`, "s:", "i:1"} {
+			c := Case{Rule: "type-matrix", Path: rps[i], Vars: map[string]string{"a": subj}, Extra: map[string]string{"kinds": "regex", "dtleft": "0"}}
+			r.evals.Add(1)
+			r.traces.Add(5)
+			if f := c05Matrix(c); f != nil {
+				r.Fail(c, f)
+			}
+		}
 	})
 	r.Extra("type_pairs_exercised", len(covered))
 	r.Extra("type_pairs_expected", n)
